@@ -15,7 +15,6 @@ def check(rep):
               "C14.ONE-GENERATOR", "utils/wraper_functions.py:generate_code[layout flag]",
               f"recompile uses the fixed layout expose={exps.get('recompile')}; generate_code passes its parameter ({exps.get('generate_code')})",
               text=str(exps))
-    PR.rule_translation(ctx, rid="C14.SAME-BEHAVIOUR")
     rep.assume("black.format_str is AST-preserving (its own safety check) - trusted")
     return ("Sibling agreement: for every shape both layouts instantiate to modules that parse, define the function named by the "
             "experiment, bind every name they read (closure in the nested layout, parameters in the exposed one), and have identical "
